@@ -54,7 +54,7 @@ PROVED_FAMILIES = ['plurality', 'ha_d_hondt', 'ha_sainte_lague', 'ha_imperiali',
                    'positional_borda', 'positional_borda0', 'positional_dowdall', 'positional_geometric', 'positional_modified_borda',
                    'positional_fixed_top3', 'approval_av', 'approval_sav',
                    'condorcet_kemeny_young', 'condorcet_winner', 'smith_set', 'schwartz_set',
-                   'stv_gregory_hare', 'stv_gregory_droop', 'stv_dist_gregory_droop', 'stv_gregory_hare_strict', 'stv_gregory_imperiali',
+                   'stv_gregory_hare', 'stv_gregory_droop', 'stv_dist_gregory_droop', 'stv_gregory_hare_strict', 'stv_gregory_imperiali', 'stv_gregory_noquota',
                    'rel_threshold_5pc', 'rel_threshold_5pc_decimal', 'rel_threshold_5pc_float', 'rel_threshold_third', 'abs_threshold_2', 'openlist_jump_5pc', 'openlist_quota_precedence',
                    'openlist_tiebreaker_plurality', 'threshold_alternative', 'aux_input_order', 'aux_sortitor', 'aux_random_ballot', 'aux_rfc3797', 'aux_candidate_number',
                    'lr_imperiali_subtract', 'lr_hagenbach_bischoff_subtract', 'qd_imperiali_subtract',
@@ -66,7 +66,7 @@ POSITIONAL_CFG = {'positional_borda': {'s': 'Borda', 'base': 1}, 'positional_bor
               'positional_modified_borda': {'s': 'ModifiedBorda'}, 'positional_fixed_top3': {'s': 'FixedTop', 'top': 3}}
 STV = {'stv_gregory_hare': ('hare', 'selector'), 'stv_gregory_droop': ('droop', 'selector'),
        'stv_dist_gregory_droop': ('droop', 'distributor'), 'stv_gregory_hare_strict': ('hare', 'selector'),
-       'stv_gregory_imperiali': ('imperiali', 'selector')}
+       'stv_gregory_imperiali': ('imperiali', 'selector'), 'stv_gregory_noquota': (None, 'selector')}
 THRESHOLDS = {'rel_threshold_5pc': ('rel_threshold', '1/20', True), 'rel_threshold_5pc_decimal': ('rel_threshold', '1/20', True),
               'rel_threshold_5pc_float': ('rel_threshold', '3602879701896397/72057594037927936', True), 'rel_threshold_third': ('rel_threshold', '1/3', False),
               'abs_threshold_2': ('abs_threshold', '2', True)}
